@@ -16,7 +16,7 @@ DEFAULT_PROFILE = dict(
     max_comps=5, min_comps=2, p_imp=0.25, p_feedback=0.4, allow_cycles=True, units=True, wild_units=True,
     styles=['dense', 'dense', 'sparse', 'sparse', 'matfree'], groups=True, index_forms=True,
     p_neg_index=0.15, p_f4=0.0, out_scaling=False, assembled=True, cyc_nl=['newton', 'newton', 'nlbgs', 'nlbgs', 'nlbj'],
-    cyc_ln=['direct', 'direct', 'krylov', 'lnbgs', 'lnbj'], approx=False, bounds=False,
+    cyc_ln=['direct', 'direct', 'krylov', 'lnbgs', 'lnbj'], approx=False, bounds=False, auto_ivc=0.0, promotions=0.0,
 )
 
 
@@ -175,6 +175,13 @@ def model_spec(draw, prof=None):
         for k in range(nin):
             earlier = [o for o in outs if o[3] < ci]
             later = [o for o in outs if o[3] > ci]
+            if prof.get('auto_ivc') and chance(draw, prof['auto_ivc']):
+                # unconnected input: OpenMDAO supplies an _auto_ivc source holding the input's default value
+                shape = draw(st.sampled_from(SHAPES))
+                n = int(np.prod(shape))
+                c['inputs'].append({'name': f"i{k}", 'shape': shape, 'units': unit_for(),
+                                    'val': draw(st.integers(-6, 6)) / 2.0})
+                continue
             fb = want_cycles and later and chance(draw, 0.3)
             src = draw(st.sampled_from(later if fb else earlier))
             any_feedback = any_feedback or fb
@@ -280,6 +287,23 @@ def model_spec(draw, prof=None):
             for c in comps[first:]:
                 if c['path'][:len(pre)] == pre and c.get('style') == 'matfree':
                     c['style'] = 'dense'
+    if prof.get('promotions'):
+        connected = {cn['tgt'] for cn in conns}
+        ren = {}
+        for c in comps:
+            base = '.'.join(c['path'] + [c['name']])
+            up = '.'.join(c['path'])
+            for io, key in (('outputs', 'promotes_outputs'), ('inputs', 'promotes_inputs')):
+                for v in c[io]:
+                    if chance(draw, prof['promotions']):
+                        new = f"{c['name']}_{v['name']}"
+                        c.setdefault(key, []).append([v['name'], new])
+                        ren[base + '.' + v['name']] = (up + '.' if up else '') + new
+        for cn in conns:
+            if cn['src'] in ren:
+                cn['src_p'] = ren[cn['src']]
+            if cn['tgt'] in ren:
+                cn['tgt_p'] = ren[cn['tgt']]
     spec = {'comps': comps, 'conns': conns, 'groups': groups, 'feedback': bool(any_feedback)}
     return spec
 
